@@ -2,6 +2,9 @@ from .common import *
 def run(tier, a=None):
     specs = [{'src': 'h_c07.cpp', 'defs': ['TAG=' + t]} for t in tags(tier)]
     specs += [{'src': 'h_c07.cpp', 'defs': ['TAG=Bnd<R1t,SO3t,SE2t>', 'ONLY_GENIDX'], 'filter': 'c07_genidx.*'}, {'src': 'h_c07.cpp', 'defs': ['TAG=Bnd<SE3t,R3t>', 'ONLY_GENIDX'], 'filter': 'c07_genidx.*'}]
+    import props.common as pc
+    _o = pc.opts
+    pc.opts = lambda tier, a=None: dict(_o(tier, a), approx_ok=False)
     return simple('C07', tier, a, specs,
         'EXACT: Generator(i) equals the documented basis matrix, hat = sum t_i G_i, Vee(hat t)=t, hat(Bracket(a,b)) = [hat a, hat b], antisymmetry, Jacobi, bilinearity, inner = Frobenius product, W symmetric, a^T W a >= |a|^2 (positive definite), weightedNorm^2 = squaredWeightedNorm; Generator(i) raises for the out-of-range indices -1, DoF, DoF+1, INT_MAX, INT_MIN; symbolic tangents, decided per entry by z3 over the DAG of the real templates.',
         ['no magnitude bound (real arithmetic)', 'groups: ' + ','.join(tags(tier)), 'generator index behaviour: indices -1, DoF, DoF+1, INT_MAX, INT_MIN must raise and 0, DoF-1 must not (concrete indices; not all 2^32 values)'])
